@@ -6,9 +6,10 @@ MODULES = ["Prelude", "C13_Model", "C19_Model", "C19_Spec", "C19_Check"]
 PROPS_MODULE = "C19_Properties"
 THEOREMS = ["C19_ack_persisted", "C19_ack_durable", "C19_stop_flushes", "C19_load_exact",
             "C19_deleted_stay_deleted", "C19_deleted_race_locked", "C19_deleted_race_refuted",
+            "C19_save_race_locked", "C19_save_race_refuted",
             "C13_store_shard_filter"]
 EVAL = "C19_Check.eval"
-CLAUSES = ["agree", "ack", "stop", "load", "deleted", "filter"]
+CLAUSES = ["agree", "ack", "stop", "load", "deleted", "filter", "noregress"]
 RULE = ("distinct op lists that contain a save, at least one injected API fault or crash that was actually consumed "
         "by an API call (the op made >= 1 call and its plan holds a non-ok outcome), and a later restart+load")
 TRUSTED_BASE = [
@@ -53,8 +54,20 @@ def race_witness(wt):
         {"op": "load", "o": "ok"}]}
 
 
+def save_race_witness(wt):
+    return {"n": 1, "init": [], "ops": [
+        {"op": "restart", "shard": 0, "wt": wt},
+        {"op": "save", "c": cond(b"a.g1", b"a", 1, 1, 1)}, {"op": "flush"},
+        {"op": "flush", "inter": [{"up": B(b"a"), "name": B(b"a.g1"), "ops": [{"op": "save", "c": cond(b"a.g1", b"a", 2, 2, 2)}]}]},
+        {"op": "restart", "shard": 0, "wt": wt},
+        {"op": "load", "o": "ok"}]}
+
+
 def corpus():
     cs = []
+    # a write-through Save racing a flush: the flush must not overwrite the acknowledged newer version
+    cs.append(save_race_witness(True))
+    cs.append(save_race_witness(False))
     # the periodic-mode delete / sync race: a deleted condition is re-created by the running flush
     cs.append(race_witness(False))
     cs.append(race_witness(True))
@@ -199,9 +212,10 @@ def gen_hist(rng, wfok=True, nops=(6, 16)):
                 inter = []
                 deleting = True
                 pool = sorted(set(saved)) if saved and rng.chance(4, 5) else [(u, nm(u, i)) for u in UPS for i in INST]
-                for key in rng.sample(pool, rng.randint(1, 2)):
+                single = mode            # write-through: every interleaved operation may wait for the mutex
+                for key in rng.sample(pool, 1 if single else rng.randint(1, 2)):
                     fops = []
-                    for _ in range(rng.randint(1, 2)):
+                    for _ in range(1 if single else rng.randint(1, 2)):
                         f = rand_fop(rng, deleting, wfok, key)
                         if f["op"] != "save":
                             deleting = False
